@@ -10,6 +10,7 @@ import AcnModel.Sessions
 import AcnProofs.Lemmas.Sessions
 import AcnProofs.Lemmas.SessionsFit
 import AcnProofs.Lemmas.SessionsCharge
+import AcnProofs.Lemmas.SessionsBisect
 import Mathlib.Tactic
 
 namespace Acn.C15
@@ -40,6 +41,22 @@ example : periodIndex (1552212299 : ℚ) 5 = .ok 5174040 := by
 example : periodIndex (-90 : ℚ) (1 : ℚ) = .ok (-1) := by
   rw [trunc_eq_ceil_before_epoch _ _ (by norm_num) (by norm_num)]; congr 1
   rw [Int.ceil_eq_iff]; norm_num
+
+/-- Int form: whole seconds, period `pn/pd` minutes (e.g. 1/2, 7/1): the index is the integer
+    quotient `secs·pd / (60·pn)` — for instants at or after the epoch. -/
+theorem trunc_eq_int_div (secs : Int) (pn pd : Nat) (hs : 0 ≤ secs) (hpn : 0 < pn) (hpd : 0 < pd) :
+    periodIndex (secs : ℚ) ((pn : ℚ) / (pd : ℚ)) = .ok (secs * pd / (60 * pn)) := by
+  have hpnq : (0 : ℚ) < pn := by exact_mod_cast hpn
+  have hpdq : (0 : ℚ) < pd := by exact_mod_cast hpd
+  rw [trunc_eq_floor _ _ (by exact_mod_cast hs) (by positivity)]
+  congr 1
+  have e : (secs : ℚ) / (60 * ((pn : ℚ) / (pd : ℚ))) = ((secs * pd : Int) : ℚ) / ((60 * pn : Nat) : ℚ) := by
+    push_cast; field_simp
+  rw [e, Rat.floor_intCast_div_natCast]
+  push_cast; rfl
+
+example : periodIndex ((1552212299 : Int) : ℚ) (((1 : Nat) : ℚ) / ((2 : Nat) : ℚ)) = .ok 51740409 := by
+  rw [trunc_eq_int_div _ _ _ (by norm_num) (by norm_num) (by norm_num)]; rfl
 
 /-! ### documents -/
 
@@ -274,6 +291,58 @@ theorem sample_spec (idx : Nat) (s : Sample K) (period V mp : K) (maxLen : Optio
     · rw [pyMin_eq_min]; exact le_min he0.le (mul_nonneg hm hdur)
     · exact he0.le
 
+/-- the rows `_convert_ev_matrix` keeps -/
+def validRow (s : Sample K) : Bool :=
+  !(decide (s.arrival < 0) || decide (s.duration ≤ 0) || decide (s.energy ≤ 0))
+
+/-- `_convert_ev_matrix` yields exactly one session per valid row, in row order, converted with
+    that row's index in the full matrix (so `session_i` / `station_i` are pairwise distinct), and
+    nothing for the invalid rows. -/
+theorem matrix_spec (period V mp : K) (maxLen : Option K) (bp : BattParams K) (ff : Bool)
+    (hp : 0 < period) :
+    ∀ (rows : List (Sample K)) (i : Nat) (evs : List (Ev K)),
+      convertMatrixFrom i rows period V mp maxLen bp ff = .ok evs →
+      List.Forall₂ (fun p e => convertSample p.2 p.1 period V mp maxLen bp ff = .ok (some e))
+        ((rows.zipIdx i).filter (fun p => validRow p.1)) evs := by
+  intro rows
+  induction rows with
+  | nil =>
+    intro i evs h
+    rw [convertMatrixFrom] at h
+    injection h with h; subst h
+    exact .nil
+  | cons r rs ih =>
+    intro i evs h
+    rw [convertMatrixFrom] at h
+    split at h
+    · exact absurd h (by simp)
+    · rename_i o ho
+      split at h
+      · exact absurd h (by simp)
+      · rename_i l hl
+        injection h with h
+        have ihl := ih (i + 1) l hl
+        rw [List.zipIdx_cons]
+        cases o with
+        | some e =>
+          obtain ⟨h1, h2, h3, -⟩ := convertSample_some hp ho
+          have hv : validRow r = true := by
+            simp [validRow, not_lt.mpr h1, not_le.mpr h2, not_le.mpr h3]
+          rw [List.filter_cons_of_pos (by simpa using hv)]
+          subst h
+          exact .cons ho ihl
+        | none =>
+          have hinv := convertSample_none hp ho
+          have hv : validRow r = false := by
+            simp only [validRow, Bool.not_eq_false', Bool.or_eq_true, decide_eq_true_eq]
+            rcases hinv with h' | h' | h'
+            · exact Or.inl (Or.inl h')
+            · exact Or.inl (Or.inr h')
+            · exact Or.inr h'
+          rw [List.filter_cons_of_neg (by simp [hv])]
+          subst h
+          exact ihl
+
 example : (⌊(9.5 : ℚ) * (60 / 5)⌋ = 114) ∧ ⌊((9.5 : ℚ) + 0.01) * (60 / 5)⌋ = 114 := by
   constructor <;> (rw [Int.floor_eq_iff]; norm_num)
 
@@ -359,16 +428,21 @@ theorem fit_exact (n : Nat) (hd : FitDomain caps mr ts tol E (n : ℝ) V P)
     rw [e3, hsoc, hi, e2]
     nlinarith
 
-/-- Bisection terminates: `delta_soc_from_init_soc` bracketed as `_get_init_cap` brackets it needs
-    at most `n+1` recursion levels once `ub − lb < tol·2^(n+1)` (for the code's bracket
-    `[0.8 − m·T, 1]` and `tol = 1e-9`: 31 + log₂(1 + m·T) levels, far below Python's limit). -/
-theorem bisection_terminates (f : ℝ → ℝ) (target tol A B : ℝ)
-    (hf : ∀ x y, A ≤ x → x ≤ y → y ≤ B → f y ≤ f x ∧ f x - f y ≤ y - x)
-    (n : Nat) (lb ub : ℝ) (hA : A ≤ lb) (hlu : lb ≤ ub) (hB : ub ≤ B)
-    (hw : ub - lb < tol * 2 ^ (n + 1)) (h1 : f ub ≤ target) (h2 : target ≤ f lb) :
-    ∃ s, binsearch f target tol (n + 1) lb ub = .ok s ∧ lb ≤ s ∧ s ≤ ub ∧ |f s - target| < tol := by
-  obtain ⟨s, hs⟩ := binsearch_terminates f target tol A B hf n lb ub hA hlu hB hw h1 h2
-  exact ⟨s, hs, binsearch_spec f target tol _ _ _ _ hlu hs⟩
+/-- Bisection terminates (fuel adequacy): `delta_soc_from_init_soc` is decreasing and 1-Lipschitz
+    in the initial SoC, so with the bracket `[ts − m·T, 1]` that `_get_init_cap` uses, `batt_cap_fn`
+    never exhausts `n+1` levels of recursion once `1 − ts + m·T < tol·2^(n+1)` for every ladder
+    capacity (`m` = SoC per period at full rate).  With `tol = 1e-9` that is `31 + log₂(0.2 + m·T)`
+    levels — far below CPython's limit, which the model's fuel (900) stands for. -/
+theorem bisection_terminates (hd : FitDomain caps mr ts tol E T V P) (n : Nat)
+    (hfuel : ∀ c ∈ caps, 1 - ts + fitM mr V P c * T < tol * 2 ^ (n + 1)) :
+    battCapFn caps mr ts tol (n + 1) E T V P ≠ .error .recursion :=
+  battCapFn_no_recursion hd.mr_pos hd.V_pos hd.P_pos hd.ts_lt hd.T_pos hd.E_nonneg n caps
+    (fun c hc => ⟨hd.caps_pos c hc, hfuel c hc⟩)
+
+/-- an answer of the bisection, whatever the fuel, lies in the bracket and meets the tolerance -/
+theorem bisection_answer (f : ℝ → ℝ) (target tol : ℝ) (k : Nat) (lb ub s : ℝ) (hlu : lb ≤ ub)
+    (h : binsearch f target tol k lb ub = .ok s) : lb ≤ s ∧ s ≤ ub ∧ |f s - target| < tol :=
+  binsearch_spec f target tol k lb ub s hlu h
 
 /-- `free_capacity_covers`: a document converted with `capacity_fn = batt_cap_fn` (any positive
     ladder, constants in range) and a positive stay gets a battery on the ladder with
@@ -445,6 +519,14 @@ example : ∃ init b b', battCapFn [8, 24, 40, 60, 85, 100] 32 (4/5) (1/10000000
   obtain ⟨init, h, hcl⟩ := fit_F9_closed
   obtain ⟨b, b', hb, hch, -, hex⟩ := fit_exact 100 fitDomain_F9 h
   exact ⟨init, b, b', h, (fit_free_capacity fitDomain_F9 h).2 hcl, hb, hch, hex hcl⟩
+
+/-- 34 levels suffice for the F9 request on the whole ladder (Python's limit is 1000) -/
+example : battCapFn [8, 24, 40, 60, 85, 100] 32 (4/5) (1/1000000000) (33 + 1) 1 ((100 : ℕ) : ℝ) 208 5
+    ≠ .error .recursion := by
+  apply bisection_terminates fitDomain_F9 33
+  intro c hc
+  simp only [List.mem_cons, List.not_mem_nil, or_false] at hc
+  rcases hc with h | h | h | h | h | h <;> rw [h] <;> norm_num [fitM]
 
 end fit
 
